@@ -70,8 +70,10 @@ ROWS = {
        'datagrams (retransmissions included) carry the granted id, the chosen type and consecutive sequence numbers '
        'from inside the acceptance window with 0 skipped on 32-bit wrap, Close Session names the granted id; the '
        'authentication choice is the strongest of offered-and-implemented for every capability byte, over the '
-       'preference tuple and the implemented set regenerated from messaging.py / rmcp.py on every run.',
-  note='translator harness/translate/rmcp.py; hand-written model Model/Session.lean tied per datagram byte for byte (the '
+       'preference tuple and the implemented set regenerated from messaging.py / rmcp.py on every run; the '
+       'statement-level shape of establish_session / close_session / the request builders is re-read from the AST '
+       '(Gen/SessionShape.lean, theorem handshake_shape).',
+  note='translators harness/translate/rmcp.py, session.py; hand-written model Model/Session.lean tied per datagram byte for byte (the '
        'real Rmcp talks through a fake socket to the compiled Lean reference BMC, the same script is replayed to the '
        'model); reference BMC Spec/BmcSession.lean is a reading of IPMI v1.5 6.11-6.12; digest function is a parameter; '
        'random.randrange pinned; keep-alive off (C14), stale frames C04; per-step fault stopping points are checked '
